@@ -331,9 +331,9 @@ def rdataWire (origin : Option (List UInt8)) : PRdata → Option (List UInt8)
 /-! ### records and files — the presentation subset of `C23_records_partial`
 
   One entry per line — or, with parentheses, several.  Records: `[owner] [ttl] [class] type rdata
-  [;comment]`.  The fields before the RDATA are separated by runs of blanks; the gaps before,
-  inside and after the RDATA are any mix of blanks, `(`, `)` and — inside parentheses — line ends
-  (LF or CRLF) with optional comments.  Lines end with LF or CRLF.  Owner: an absolute name, a relative name (completed with the origin), `@`
+  [;comment]`.  The gaps between the fields and after the last one are any mix of blanks, `(`,
+  `)` and — inside parentheses — line ends (LF or CRLF) with optional comments.  Lines end with
+  LF or CRLF.  Owner: an absolute name, a relative name (completed with the origin), `@`
   (the origin) — names in any mix of octet forms — or omitted (leading blanks: same owner as
   before).  TTL and class written (decimal; mnemonic in any case or `CLASSnnn`; in either order)
   or omitted.  Type: mnemonic in any case or `TYPEnnn`.  RDATA: the RFC 3597 form `\# len hex`
@@ -341,7 +341,7 @@ def rdataWire (origin : Option (List UInt8)) : PRdata → Option (List UInt8)
   SRV, TXT, HINFO (names relative / absolute / `@`; character-strings quoted or unquoted with
   escapes).  Directives: `$ORIGIN <absolute name>`, `$TTL <decimal>`.  Blank and comment-only
   lines.  Not in this subset (see C23.lean): AAAA, WKS and Chaosnet A typed syntax, parentheses
-  before the type field or in directives, a last line without newline. -/
+  in directives, a last line without newline. -/
 
 inductive POwner where
   | same
@@ -355,7 +355,9 @@ structure PRecord where
   clsFirst : Bool          -- class written before the TTL (matters when both are written)
   ty : PCode
   rdata : PRdata
-  sep : List UInt8         -- the blanks between the fields up to the type
+  head : List PGap         -- gap 0: after the owner (or before the first field when the owner is
+                           -- omitted: it then starts with a blank); gaps 1, 2: after the first and
+                           -- second of TTL and class that are written
   gaps : List PGap         -- gap 0: between type and RDATA; gap i+1: after the i-th RDATA field
   tail : PGap              -- after the last field (closes the parentheses, if open)
   comment : List UInt8
@@ -373,18 +375,26 @@ def ownerText : POwner → List UInt8
   | .same => []
   | .named n => nameText n
 
-/-- the TTL and class fields, each written or omitted, in either order -/
-def ttlClassText (sep : List UInt8) (ttl : Option Nat) (cls : Option PCode) (clsFirst : Bool) : List UInt8 :=
-  let t := match ttl with
-    | some t => decimal t ++ sep
-    | none => []
-  let c := match cls with
-    | some c => classText c ++ sep
-    | none => []
-  if clsFirst then c ++ t else t ++ c
+/-- the TTL and class fields, each written or omitted, in either order; `gA` follows the first
+    field that is written, `gB` the second -/
+def ttlClassText (gA gB : List UInt8) (ttl : Option Nat) (cls : Option PCode) (clsFirst : Bool) : List UInt8 :=
+  match ttl, cls with
+  | some t, some c =>
+    if clsFirst then classText c ++ (gA ++ (decimal t ++ gB)) else decimal t ++ (gA ++ (classText c ++ gB))
+  | some t, none => decimal t ++ gA
+  | none, some c => classText c ++ gA
+  | none, none => []
+
+/-- line ends in the gaps after the TTL and class fields that are written -/
+def ttlClassLines (a b : Nat) (ttl : Option Nat) (cls : Option PCode) : Nat :=
+  match ttl, cls with
+  | some _, some _ => a + b
+  | none, none => 0
+  | _, _ => a
 
 def renderRecord (p : PRecord) : List UInt8 :=
-  ownerText p.owner ++ p.sep ++ ttlClassText p.sep p.ttl p.cls p.clsFirst ++
+  ownerText p.owner ++ gapText (gapAt p.head 0) ++
+  ttlClassText (gapText (gapAt p.head 1)) (gapText (gapAt p.head 2)) p.ttl p.cls p.clsFirst ++
   typeText p.ty ++ gapText (gapAt p.gaps 0) ++ rdataText (fun i => gapAt p.gaps (i + 1)) p.rdata ++
   (gapText p.tail ++ (p.comment ++ eolText p.crlf))
 
@@ -428,8 +438,9 @@ def ownerLines : POwner → Nat
 
 /-- the lines a record's text occupies beyond the first -/
 def recordLines (p : PRecord) : Nat :=
-  ownerLines p.owner + gapLines (gapAt p.gaps 0) + rdataLines (fun i => gapAt p.gaps (i + 1)) p.rdata +
-    gapLines p.tail
+  ownerLines p.owner + gapLines (gapAt p.head 0) +
+    ttlClassLines (gapLines (gapAt p.head 1)) (gapLines (gapAt p.head 2)) p.ttl p.cls +
+    gapLines (gapAt p.gaps 0) + rdataLines (fun i => gapAt p.gaps (i + 1)) p.rdata + gapLines p.tail
 
 /-- the owner a record line denotes -/
 def ownerOf (c : SCtx) (p : PRecord) : Option (List UInt8) :=
